@@ -116,8 +116,10 @@ def regen_cfg():
         open(path, "w").write(out)
         CFG.update(ok=True, detail="flags regenerated and installed")
     else:
-        diff = [l for l in out.splitlines() if l.startswith("Definition") and l not in (old or "")]
-        CFG.update(ok=False, detail="theorem fixed_cfg_is_the_source (coq/CfgTie.v) fails: the source no longer does what the configuration of the lifecycle theorems says; flags read off the source that differ: " + "; ".join(diff) + " | " + o[-300:])
+        diff = [l.strip() for l in out.splitlines() if (l.startswith("Definition gen_") and "gen_skeleton" not in l or l.startswith("  (\"")) and l not in (old or "")]
+        CFG.update(ok=False, detail="theorem fixed_cfg_is_the_source / skeleton_is_the_source (coq/CfgTie.v) fails: the source no longer has the shape the lifecycle model (coq/Sys.v) was written against; "
+                   "facts read off server.go / conn.go that differ (flags: order of teardown steps etc.; skeleton: return paths of Stop / Run / serveRequests, goroutines started, "
+                   "deadline-setting sites, package-level synchronisation state): " + "; ".join(diff) + " | " + o[-300:])
     sh("rm -rf %s" % trial)
 
 
@@ -475,6 +477,8 @@ def check_c16(tier, seed, res):
             return ("panic:" + kind, "exported helper/constructor panicked")
         if i.startswith("SPECFAIL") or i.startswith("NONDET") or i.startswith("BADFORMAT"):
             return (i.split(" ")[0].lower() + ":" + kind, "result contradicts the property statement")
+        if i.startswith("OPTIONS-SLICE-MODIFIED"):
+            return ("options-slice-modified:" + kind, "a constructor wrote into the caller's option slice beyond the options it was given: the next constructor call with the longer list does not get the documented defaults / the option the caller put there")
         if kind == "entry" and i.startswith("OK "):
             names = entry_names(i)
             if names != sorted(names):
@@ -587,6 +591,31 @@ def check_c01(tier, seed, res):
             res.mismatch(line, e["impl"], e["model"])
         elif res.evaluations % 211 == 1:
             res.sample(line[:300] + "  =>  " + e["impl"][:200])
+    # end to end: the same frames, forty at a time in ONE TCP segment to a real Server (Run,
+    # serveRequests, a goroutine per request, the Mux's default route).  Every request must reach
+    # a handler exactly once, carrying what its own frame said, whatever else is in flight
+    good = [i for i, line in cm.items() if table.get(i, {}).get("impl", "").startswith("OK ") and table[i]["impl"] == table[i]["spec"]
+            and line.split(" ")[2] not in ("unbind", "ext")]
+    good = good[:2400 if tier == "quick" else 24000]
+    batches = [good[j:j + 40] for j in range(0, len(good), 40)]
+    ptext = "".join("pipe p%d %d %s\n" % (b, len(ids), " ".join(table[i]["wire"] for i in ids)) for b, ids in enumerate(batches))
+    if ptext:
+        pout = parse_results(run_vh(ptext))
+        for b, ids in enumerate(batches):
+            res.evaluations += 1
+            want = sorted(table[i]["spec"][3:] for i in ids)
+            got = pout.get(("pipe", "p%d" % b), "")
+            wants = "%d %s" % (len(want), " ; ".join(want))
+            if got.startswith("HARNESS"):
+                res.mismatch("pipe p%d" % b, got, wants); continue
+            if got != wants:
+                gl = got.split(" ", 1)[1].split(" ; ") if " " in got else []
+                lost = [w for w in want if w not in gl]
+                extra = [g_ for g_ in gl if g_ not in want]
+                res.violation("pipelined-delivery", "pipe p%d %d %s" % (b, len(ids), " ".join(table[i]["wire"] for i in ids)), got[:1500], wants[:1500],
+                              "requests pipelined on one connection did not each reach a handler exactly once with their own content: %d delivered of %d sent; not delivered e.g. %s; delivered but never sent (or twice) e.g. %s" % (
+                                  len(gl), len(want), lost[:1], extra[:1]))
+        dist["pipelined-batches"] = len(batches)
     # requests that must never be delivered: unsupported protocolOps, bind versions != 3
     neg = gen_cases("c01neg", seed, 0, tier)
     model, impl = differential(neg, wd("C01"), "neg")
@@ -701,6 +730,29 @@ def check_c02(tier, seed, res):
                           "a frame of %d nested constructed headers (30 80 ...) overflows the goroutine stack in go-asn1-ber's recursive reader: fatal error, the whole process dies, no recover possible" % depth)
         else:
             res.mismatch(case, "rc=%d %s %s" % (rc, out[-200:], err[-300:]), "-")
+    # K4: declared length.  The model's reader compares the declared length with what follows and
+    # returns an error; go-asn1-ber allocates the declared length first.  Replayed in a process of
+    # its own with the address space capped at 2 GB (what a container's memory limit does), next to a
+    # control frame of the same shape under the same cap.
+    for mode, expect_ok in (("benign", True), ("huge", False)):
+        try:
+            p = subprocess.run("ulimit -v 2000000; exec %s k4 %s" % (VH, mode), shell=True, stdout=subprocess.PIPE, stderr=subprocess.PIPE, text=True, errors="replace", timeout=300, env=GOENV)
+            out, err, rc = p.stdout, p.stderr, p.returncode
+        except subprocess.TimeoutExpired:
+            out, err, rc = "", "timeout", -1
+        res.evaluations += 1
+        case = "k4 %s %s" % (mode, mode)
+        if rc == 0 and "returned" in out:
+            res.nontrivial.add(case)
+            res.sample(case + "  =>  " + out.strip())
+        elif "out of memory" in err or "cannot allocate" in err:
+            res.nontrivial.add(case)
+            res.violation("frame=declared-length-2GiB" if not expect_ok else "frame=benign-under-memory-cap", case,
+                          "process died: " + " / ".join(l for l in err.splitlines()[:3]), "ordinary error return",
+                          "the 14-byte frame 30 09 86 86 00 00 7f ff 00 00 7f ff 86 86 (an element declaring 2^31-65536 bytes) makes go-asn1-ber allocate 2 GiB before reading: "
+                          "with the address space capped at 2 GB the runtime aborts the whole process (fatal error: out of memory), no recover possible; without a cap each such frame costs 2 GiB of resident memory")
+        else:
+            res.mismatch(case, "rc=%d %s %s" % (rc, out[-200:], err[-300:]), "-")
     res.extra["outcome_classes"] = classes
     res.extra["oracle_dependent_frames_compared_on_panic_bit_only"] = oracle_skipped
     res.extra["canonical_requests"] = len(wires)
@@ -768,6 +820,11 @@ def check_c14(tier, seed, res):
                     res.violation("behera-more-than-one", line, i, m, "more than one of grace/expire/error set"); continue
             if i != m:
                 res.mismatch(line, i, m)
+    # response direction: controls handed to a Bind / SearchDone response, some changed in place
+    # afterwards (paging cookie, criticality, value), written once or twice
+    pcases = gen_cases("c14resp", seed, 300 if tier == "quick" else 20000, tier)
+    pmodel, pimpl = differential(pcases, wd("C14"), "resp")
+    resp_compare(res, pcases, pmodel, pimpl, dist, "ctl-response:")
     # request direction: two or more controls on one message, every order
     rcases = gen_cases("c14req", seed, 300 if tier == "quick" else 20000, tier)
     table = stage_requests(rcases, wd("C14"), "req")
@@ -877,7 +934,7 @@ def c04_expect(line):
         if k == "code": code = int16(t.int())
         elif k == "diag": diag = t.next()
         elif k == "matched": matched = t.next()
-        elif k == "ctrls": ctrls = t.controls()
+        elif k in ("ctrls", "mutctrls"): ctrls = t.controls()
         elif k == "addattr": added.append((t.next(), t.hexlist()))
         elif k == "name": t.next()
         elif k == "write": writes.append(snapshot())     # written now, modified further afterwards
@@ -891,6 +948,12 @@ def check_c04(tier, seed, res):
     cases = gen_cases("c04", seed, n, tier)
     model, impl = differential(cases, wd("C04"), "main")
     dist = {}
+    resp_compare(res, cases, model, impl, dist, "resp-fields:")
+    res.extra["distribution"] = dist
+    res.rule = C04_RULE
+
+
+def resp_compare(res, cases, model, impl, dist, keyprefix):
     for k, line in case_map(cases).items():
         res.evaluations += 1
         i = impl.get(k); m = model.get(k)
@@ -900,7 +963,8 @@ def check_c04(tier, seed, res):
         dist[kind] = dist.get(kind, 0) + 1
         res.nontrivial.add(line.split(" ", 2)[2])
         if " | " not in i:
-            res.violation("resp:" + i.split(" ")[0].lower() + ":" + kind, line, i, m, "response could not be built or written"); continue
+            res.violation("resp:" + i.split(" ")[0].lower() + ":" + kind, line, i, m,
+                          "the constructor wrote into the caller's option slice (a later constructor call with the longer list gets a different option)" if i.startswith("OPTIONS-SLICE") else "response could not be built or written"); continue
         wants = c04_expect(line)
         segs = i.split(" || ")
         bad = len(segs) != len(wants)
@@ -916,16 +980,19 @@ def check_c04(tier, seed, res):
                 ok = got == oids
             bad = not ok
         if bad:
-            res.violation("resp-fields:" + kind, line, i, " || ".join(w for w, _ in wants), "the LDAPMessage on the wire does not carry the request's id / the constructor's tag / the values set at the time of the Write"); continue
+            res.violation(keyprefix + kind, line, i, " || ".join(w for w, _ in wants), "the LDAPMessage on the wire does not carry the request's id / the constructor's tag / the values (controls included) set at the time of the Write"); continue
         if i != m:
             res.mismatch(line, i, m)
         elif res.evaluations % 307 == 1:
             res.sample(line[:200] + "  =>  " + iparsed[:160])
-    res.extra["distribution"] = dist
-    res.rule = ("seeded (constructor, options, setters) programs for the six New*Response constructors: ids 0..2^31-1 with boundaries, codes 0..32767, "
+
+
+C04_RULE = ("seeded (constructor, options, setters) programs for the six New*Response constructors: ids 0..2^31-1 with boundaries, codes 0..32767, "
                 "application codes 0..30, size-biased strings (empty, binary, 127/128, 255/256, 300+), 0..3 map attributes x 0..2 values plus AddAttribute, "
-                "controls of every kind on Bind/SearchDone; real ResponseWriter.Write output parsed by the harness's strict parser, compared (a) with the "
-                "expectation computed from the case text by check.py, (b) byte-exact with the model; distinct = distinct program text, all non-trivial")
+                "controls of every kind on Bind/SearchDone, also changed in place (exported fields, SetCookie) between SetControls and the Write; "
+                "real ResponseWriter.Write output parsed by the harness's strict parser, compared (a) with the "
+                "expectation computed from the case text by check.py, (b) byte-exact with the model; the request the response is made from varies; "
+                "distinct = distinct program text, all non-trivial")
 
 
 def ascii_fold_eq(a, b):
@@ -1041,6 +1108,9 @@ def check_c03(tier, seed, res):
                           "a request served after a registration call is not answered by the routes registered before it (first match / default / refusal)")
         elif i != m:
             res.mismatch(line, i, m)
+    # end to end: 300 requests pipelined on one connection with every handler waiting - each is
+    # handed to exactly one handler (none is answered by gldap in the handlers' place)
+    life_check("C03", ["pipe300"], 0, tier, seed, res)
     res.extra["distribution"] = dist
     res.exhaustive = True
     res.rule = ("route tables over the 43-route alphabet (bind, modify, add, delete, 3 extended names, search with base in {none,dc=a,DC=A,dc=b} x filter in "
@@ -1048,7 +1118,8 @@ def check_c03(tier, seed, res):
                 "exhaustive over routes of the request's own kind (all kinds in the thorough tier), random tables up to length 8 (32 thorough) with nil handlers "
                 "and unbind routes; histories on ONE Mux that serve a request, register a route or default that changes its answer and serve it again "
                 "(systematic over request x route of its kind, and random histories of 4..13 events); "
-                "real Mux registration methods and (*Mux).serve; expectation computed from the case text by check.py; distinct = distinct case text")
+                "real Mux registration methods and (*Mux).serve; expectation computed from the case text by check.py; distinct = distinct case text; "
+                "end to end: 300 requests pipelined on one connection of a real server, all handlers waiting: each reaches a handler, gldap answers none itself")
 
 
 # --------------------------------------------------------------------------
@@ -1282,7 +1353,10 @@ def dir_check(pid, gen, n, tier, seed, res, spec, tag="main"):
             res.mismatch(line, i, "unparseable result: %r" % (e,)); continue
         if bad:
             key = "directory:" + bad[0].split(" ")[2].rstrip(":")
-            if metachar_dn(line):
+            # K3 is the NOT-FOUND symptom on an entry whose DN holds a filter metacharacter; anything
+            # else that goes wrong with such DNs (two entries found, "more than one match", a
+            # deleted entry still there) is a different violation
+            if metachar_dn(line) and all(re.search(r"(search of existing entry \S+ code 32, 0 entries|(modify|delete): got 32 want 0)", b.replace(": code", " code")) for b in bad[:3]):
                 key = "dn=filter-metacharacter"
             res.violation(key, line, i, m, "; ".join(bad[:3])); continue
         if i != m:
@@ -1309,6 +1383,7 @@ def check_c19(tier, seed, res):
 def check_c20(tier, seed, res):
     dir_check("C20", "c20", 60 if tier == "quick" else 3000, tier, seed, res, c20_violations)
     dir_check("C20", "c20shared", 25 if tier == "quick" else 1000, tier, seed, res, c20_violations, tag="shared")
+    dir_check("C20", "c20paren", 12 if tier == "quick" else 300, tier, seed, res, c20_violations, tag="paren")
     res.rule = ("histories of 5..24 (thorough 5..40) operations (Add with sorted/duplicate attribute types, Modify add/delete/replace/increment with 0..3 values, "
                 "Delete of users and groups, Search by entry DN / users base / groups base / member filter / case-folded base, SetUsers, binds) over a pool of 6 "
                 "users and 3 groups whose DNs are not substrings of one another, issued one at a time by a real go-ldap client against a real directory; after "
@@ -1420,6 +1495,29 @@ def life_spec(pid, line, snaps, div=None):
     def settled(k):
         """is snapshot k one the runner waited for (the last one, the one it diverged at, the last before a Stop)?"""
         return k == len(P) - 1 or (div is not None and k == div) or (OPS and k + 1 < len(OPS) and OPS[k + 1][0] == "stop")
+    def inflight_across_upgrade(ci):
+        """connection ci: a request whose handler waits on a barrier was sent before a StartTLS request, and the
+        barrier is released only after the client's ClientHello: that handler is in flight across the upgrade"""
+        waiting = set(); seen_starttls = False; hello_at = None
+        for idx, op in enumerate(OPS):
+            if op[0] in ("send", "sendclose") and op[1] == ci:
+                for it in op[2]:
+                    if it["kind"] == "normal" and not seen_starttls:
+                        waiting |= set(st[1:] for st in it["steps"] if st.startswith("b"))
+                    if it["kind"] == "starttls":
+                        seen_starttls = True
+                    if it["kind"] == "hello" and seen_starttls and hello_at is None:
+                        hello_at = idx
+        if hello_at is None or not waiting:
+            return False
+        return any(op[0] == "release" and op[1] in waiting for op in OPS[hello_at:]) and not any(op[0] == "release" and op[1] in waiting for op in OPS[:hello_at])
+    for k, p in enumerate(P):
+        for ci, c in enumerate(p["conns"]):
+            if c.get("wire"):
+                if OPS and inflight_across_upgrade(ci):
+                    return ("plaintext-after-upgrade:handler-in-flight-across-starttls",
+                            "connection %d: a handler that was already running when the StartTLS upgrade happened wrote its response afterwards, and it went out in the clear (not inside a TLS record) (operation %d)" % (ci, k))
+                return ("plaintext-after-upgrade", "connection %d: after the StartTLS upgrade the server sent bytes that are not TLS records (operation %d)" % (ci, k))
     if pid == "C09":
         for k, p in enumerate(P):
             for ci, c in enumerate(p["conns"]):
@@ -1428,7 +1526,7 @@ def life_spec(pid, line, snaps, div=None):
     # responses: a client receives one frame per handler write, and nothing else (no answer to an
     # Unbind, no frame of another connection); a request with a plain script on an undisturbed
     # connection is served.  Judged before any Stop (Stop adds its notice of disconnection).
-    if OPS and pid in ("C06", "C07", "C08", "C09", "C10", "C13"):
+    if OPS and pid in ("C03", "C06", "C07", "C08", "C09", "C10", "C13", "C17"):
         for k, p in enumerate(P):
             reqs, dirty, stopped = rx_bounds(OPS, k + 1, len(p["conns"]))
             if stopped:
@@ -1458,8 +1556,9 @@ def life_spec(pid, line, snaps, div=None):
                     return ("unexpected-frame", "connection %d received %d frames although its handlers wrote at most %d (operation %d): gldap answered something no handler wrote" % (ci, rx, hi, k))
                 if settled(k) and rx < lo:
                     return ("lost-frame", "connection %d received %d frames although handlers that returned wrote %d (operation %d)" % (ci, rx, lo, k))
-                if unserved is not None and pid in ("C07", "C13"):
-                    return ("bystander-unserved" if pid == "C07" else "unserved-in-tunnel", "request %d on undisturbed connection %d was not served (operation %d)" % (unserved, ci, k))
+                if unserved is not None and pid in ("C07", "C13", "C17"):
+                    return ({"C07": "bystander-unserved", "C13": "unserved-in-tunnel", "C17": "accepted-not-served"}[pid],
+                            "request %d on undisturbed connection %d was not served (operation %d)%s" % (unserved, ci, k, " although Ready() is true and Stop was not called" if pid == "C17" else ""))
     for k, p in enumerate(P):
         for ci, c in enumerate(p["conns"]):
             if c.get("wire"):
@@ -1517,6 +1616,18 @@ def life_spec(pid, line, snaps, div=None):
                 if p.get("port") == "1":
                     return ("port-still-bound", "Stop and Run have returned and the port is still bound")
                 for ci, c in enumerate(p["conns"]):
+                    running = [x for x in c["started"] if x.rstrip("ntu") not in c["ended"]]
+                    if panics_in(ops_text) and OPS:
+                        # a handler whose script panics never reports its end
+                        allreqs, _, _ = rx_bounds(OPS, len(OPS), len(p["conns"]))
+                        def _panics(x):
+                            try:
+                                return "p" in allreqs.get(ci, [])[int(x.rstrip("ntu")) - 1]["steps"]
+                            except Exception:
+                                return True
+                        running = [x for x in running if not _panics(x)]
+                    if running:
+                        return ("handler-running-after-stop", "Stop and Run have returned and handlers %s of connection %d are still running" % (running, ci))
                     if c.get("closed") == "0":
                         return ("conn-open-after-stop", "Stop and Run have returned and connection %d is still open" % ci)
                     if c.get("onclose") == "0" and "onclose=0" not in line.split(" ")[2]:
@@ -1547,7 +1658,7 @@ def life_spec(pid, line, snaps, div=None):
         # handlers the scenario holds back are no client's doing: judged once they are all released
         if st[1] != "0" and (st[0] != st[1] or last.get("run") not in ("ok", "err")) and used11 <= released11 and not held11:
             return ("stop-hangs", "Stop (or Run) did not return within the limit: stops=%s run=%s" % (last.get("stops"), last.get("run")))
-    if pid == "C06" and P and OPS:
+    if pid in ("C06", "C03") and P and OPS:
         for k, p in enumerate(P):
             reqs, dirty, stopped = rx_bounds(OPS, k + 1, len(p["conns"]))
             if not settled(k):
@@ -1682,7 +1793,7 @@ def life_check(pid, gens, n, tier, seed, res):
 
 @check("C17")
 def check_c17(tier, seed, res):
-    life_check("C17", ["c17"], 0, tier, seed, res)
+    life_check("C17", ["c17", "c07stale"], 0, tier, seed, res)
     # address forms: Run on each, judged against Go's own net.Listen and a connection attempt
     cases = gen_cases("c17addr", seed, 0, tier)
     iout = run_vh(cases)
@@ -1767,12 +1878,35 @@ def k1_live(res):
         res.mismatch(case, "rc=%d %s %s" % (rc, out[-200:], err[-300:]), "-")
 
 
+def k4_live(res):
+    """K4 against a running server with a bystander connection (process of its own, address space capped at 2 GB)."""
+    for mode in ("benign", "huge"):
+        try:
+            p = subprocess.run("ulimit -v 2000000; exec %s k4 %s live" % (VH, mode), shell=True, stdout=subprocess.PIPE, stderr=subprocess.PIPE, text=True, errors="replace", timeout=300, env=GOENV)
+            out, err, rc = p.stdout, p.stderr, p.returncode
+        except subprocess.TimeoutExpired:
+            out, err, rc = "", "timeout", -1
+        res.evaluations += 1
+        case = "k4 live-%s %s live" % (mode, mode)
+        res.nontrivial.add(case)
+        if rc == 0 and "bystander_served_after=true" in out:
+            res.sample(case + "  =>  " + out.strip())
+        elif "out of memory" in err or "cannot allocate" in err:
+            res.violation("frame=declared-length-2GiB" if mode == "huge" else "frame=benign-under-memory-cap", case, "process died: " + " / ".join(err.splitlines()[:3]), "only the offending connection ends",
+                          "one client sending the 14-byte frame 30 09 86 86 00 00 7f ff 00 00 7f ff 86 86 to a server whose memory is limited to 2 GB kills the process (fatal error: out of memory in go-asn1-ber's reader, which allocates the declared 2 GiB first), bystander connections included")
+        elif rc == 0 and "bystander_served_after=false" in out:
+            res.violation("bystander-unserved-after-huge-length", case, out.strip(), "bystander served", "after a frame declaring a huge length on another connection the bystander is no longer served")
+        else:
+            res.mismatch(case, "rc=%d %s %s" % (rc, out[-200:], err[-300:]), "-")
+
+
 def make_life_check(pid, gens):
     def fn(tier, seed, res):
         n = 6 if tier == "quick" else 60
         life_check(pid, gens, n, tier, seed, res)
         if pid == "C07":
             k1_live(res)
+            k4_live(res)
             # a client that stalls in its TLS handshake on a TLS listener, with bystanders before and after
             env = dict(GOENV, VERIF_CERTDIR=os.path.join(WORK, "certs"))
             for how in ("idle", "partial"):
@@ -1786,10 +1920,24 @@ def make_life_check(pid, gens):
                     res.mismatch("c07tlsstall " + how, r, "-")
                 else:
                     res.sample("c07tlsstall %s  =>  %s" % (how, r))
+        if pid == "C09":
+            # ids on a TLS listener while some clients never complete their handshake
+            env = dict(GOENV, VERIF_CERTDIR=os.path.join(WORK, "certs"))
+            for how in ("silent", "garbage", "three"):
+                p = subprocess.run([VH, "run"], input="c09tlsids %s %s\n" % (how, how), stdout=subprocess.PIPE, stderr=subprocess.PIPE, text=True, errors="replace", env=env, timeout=120)
+                r = parse_results(p.stdout).get(("c09tlsids", how), "HARNESS no result")
+                res.evaluations += 1
+                res.nontrivial.add("c09tlsids " + how)
+                if r.startswith("SPECFAIL"):
+                    res.violation("connection-ids-tls", "c09tlsids %s %s" % (how, how), r, "distinct positive ids", r[9:])
+                elif not r.startswith("OK"):
+                    res.mismatch("c09tlsids " + how, r, "-")
+                else:
+                    res.sample("c09tlsids %s  =>  %s" % (how, r))
         res.rule = LIFE_RULES[pid] + "; every scenario is predicted by the LTS (Sys.v, canonical scheduler to quiescence) and forced on a real server in a worker process; after each operation the observed snapshot (ready, Run/Stop returns, port, per connection: id, handlers started/ended, closed, OnClose count) must become and stay the predicted one; one evaluation = one scenario"
     CHECKS[pid] = fn
 
-for _pid, _g in [("C06", ["c06"]), ("C07", ["c07", "c07accept", "c07stall"]), ("C08", ["c08", "c08edges", "stopbulk"]), ("C09", ["c09", "c07accept"]), ("C10", ["c10", "c10busy"]), ("C11", ["c11", "c11accept", "stopbulk", "c11readtimeout"]), ("C12", ["c12", "c12accept", "c12slowstop"]), ("C13", ["c13"])]:
+for _pid, _g in [("C06", ["c06", "upgradeids", "pipe300"]), ("C07", ["c07", "c07accept", "c07stall", "c07stale"]), ("C08", ["c08", "c08edges", "stopbulk", "pipe300"]), ("C09", ["c09", "upgradeids", "c07accept"]), ("C10", ["c10", "c10busy", "c10panic"]), ("C11", ["c11", "c11accept", "stopbulk", "c11readtimeout"]), ("C12", ["c12", "c12accept", "c12slowstop"]), ("C13", ["c13", "upgradestale"])]:
     make_life_check(_pid, _g)
 
 
@@ -1880,11 +2028,25 @@ def check_c18(tier, seed, res):
             res.mismatch(line, i, m)
         elif res.evaluations % 9 == 1:
             res.sample(line + "  =>  " + i)
+    # many refused clients one after another, then conforming ones
+    for cfgb in (("tls", "garbage"), ("tls", "plain"), ("mtls", "tls-nocert")):
+        p = subprocess.run([VH, "run"], input="c18many %s-%s %s %s\n" % (cfgb[0], cfgb[1], cfgb[0], cfgb[1]), stdout=subprocess.PIPE, stderr=subprocess.PIPE, text=True, errors="replace", env=env, timeout=300)
+        r = parse_results(p.stdout).get(("c18many", "%s-%s" % cfgb), "HARNESS no result")
+        res.evaluations += 1
+        case = "c18many %s-%s %s %s" % (cfgb[0], cfgb[1], cfgb[0], cfgb[1])
+        res.nontrivial.add(case)
+        if r.startswith("SPECFAIL"):
+            res.violation("bystander-affected:%s:many-%s" % cfgb, case, r, "served", r[9:])
+        elif not r.startswith("OK"):
+            res.mismatch(case, r, "-")
+        else:
+            res.sample(case + "  =>  " + r)
     res.exhaustive = True
     res.rule = ("the complete product {real gldap server, real test directory} x {server auth only, client certificate required and verified} x "
                 "{plaintext LDAP request (7 operations), arbitrary bytes, TCP connect without ClientHello, abandoned handshake, TLS without certificate, "
                 "certificate of a different CA, valid certificate}, each with a conforming bystander before, WHILE the offender is still connected, and after; observed: whether a handler ran "
-                "(worker events; for the directory: whether an LDAP response arrived), bystander results, process alive; exhaustive over this finite space")
+                "(worker events; for the directory: whether an LDAP response arrived), bystander results, process alive; exhaustive over this finite space; "
+                "and 140 refused clients one after another (garbage, plaintext bind, TLS without certificate under mTLS) followed by a new and an old conforming client")
     res.assumptions.append("crypto/tls enforces the handshake (oracle hs_ok with contract tls_contract); the run confirms the expected table on the installed Go")
 
 
@@ -1914,7 +2076,7 @@ def check_c15(tier, seed, res):
         cases += gen_cases(gname, seed, n, tier)
     # the forced interleavings and fault scenarios are always all in
     forced = ""
-    for gname in ["c12accept", "c12slowstop", "c15timer", "c11accept", "c07accept", "c07stall", "c08edges"]:
+    for gname in ["c12accept", "c12slowstop", "c15timer", "c11accept", "c07accept", "c07stall", "c08edges", "c07stale"]:
         forced += gen_cases(gname, seed, n, tier)
     lines = [l for l in cases.splitlines() if l]
     if tier == "quick":
